@@ -33,6 +33,44 @@ Theorem c05_render_is_writes : forall v ws, csv_render_writes v = Ok ws -> csv_r
 Proof. intros v ws H. unfold csv_render. rewrite H. reflexivity. Qed.
 Print Assumptions c05_render_is_writes.
 
+(* END TO END.  For every well-formed history of public-API calls (Model/Table.v:
+   AddHeaders, AddRowItems, NewRow / NewRowSizedFor + Row.Add + AddRow,
+   AppendNewRow + Row.Add on the attached row, AddSeparator, column property
+   settings, in any interleaving) over ARBITRARY items (Model/Cell.v): whenever
+   CSV rendering of the table so built succeeds, the strict parser reads back
+   exactly the history's records - the header if any, then each non-separator
+   row in attach order, each field the DOCUMENTED TEXT of the item the history
+   put there (Spec/CellText.v), padded with empty fields to the column count
+   the history defines; and it does succeed as soon as there is a column. *)
+From Tab Require Import Model.Cell Model.Table Spec.TableHist Spec.CellText Proofs.E2EProofs.
+
+Theorem c05_history : forall (W : list N -> nat) (e : env) (json : item -> option (list N)) (h : list top) out,
+  twf_hist h -> csv_render (hview W e json h) = Ok out ->
+  parse_csv out = Some (map (pad_to (hist_ncols h)) (map (map (documented_text e)) (hist_records h)))
+  /\ Forall (fun r => length r = hist_ncols h) (map (pad_to (hist_ncols h)) (map (map (documented_text e)) (hist_records h))).
+Proof. exact csv_history. Qed.
+Print Assumptions c05_history.
+
+Theorem c05_history_succeeds : forall W e json (h : list top),
+  twf_hist h -> 1 <= hist_ncols h -> exists out, csv_render (hview W e json h) = Ok out.
+Proof. exact csv_history_succeeds. Qed.
+Print Assumptions c05_history_succeeds.
+
+(* non-vacuity: a header of a string and a rune; a row attached empty and then
+   extended by an object with String(); a separator; a row of nil, a quote and
+   a third cell that widens the table *)
+Example c05_history_example :
+  let e : env := fun _ => mkObj (Some [115%N]) None None None None [] None in
+  let h := [TCore (AddHeaders [IString [104%N]; IRune 120]); TCore (AppendNewRow 1); TCore (RowAdd (RName 1) (IObj 0%N));
+            TSetAlign 1 (Some ARight); TCore AddSeparator; TCore (AddRowItems [INil; IString [34%N]; IString [108%N]])] in
+  twf_hist h /\ hist_ncols h = 3
+  /\ exists out, csv_render (hview (@length N) e (fun _ => None) h) = Ok out
+       /\ parse_csv out = Some [[[104%N]; [120%N]; []]; [[115%N]; []; []]; [[]; [34%N]; [108%N]]].
+Proof.
+  cbv zeta. split; [apply twf_histb_sound; vm_compute; reflexivity|]. split; [vm_compute; reflexivity|].
+  eexists. split; vm_compute; reflexivity.
+Qed.
+
 (* non-vacuity: a ragged table with a zero-cell row, quotes, CR LF and NUL *)
 Local Open Scope N_scope.
 Example c05_example :
